@@ -264,21 +264,23 @@ def sources(tier):
     scale, deposit = ledger.palette()
     q = ledger.quotes_of(scale)
     if tier == "quick":
-        return [("spot1+fut", ledger.FEES[1], q, deposit, 2), ("fut+fut", ledger.FEES[0], q, deposit, 2)]
+        # the last source: brokers built with `epsilon=0` (no snapping of small residuals): a position closed to exactly zero is flat
+        return [("spot1+fut", ledger.FEES[1], q, deposit, 2), ("fut+fut", ledger.FEES[0], q, deposit, 2), ("spot1+fut", ledger.FEES[0], q, deposit, 2, 0.0)]
     return [("spot1+fut", ledger.FEES[1], q, deposit, 3), ("fut+fut", ledger.FEES[0], q, deposit, 3),
-            ("spot4+fut", ledger.FEES[4], q, deposit, 3), ("etf+es", ledger.FEES[5], q, deposit, 2), ("spot+spot", ledger.FEES[0], q, deposit, 3)]
+            ("spot4+fut", ledger.FEES[4], q, deposit, 3), ("etf+es", ledger.FEES[5], q, deposit, 2), ("spot+spot", ledger.FEES[0], q, deposit, 3),
+            ("spot1+fut", ledger.FEES[0], q, deposit, 3, 0.0), ("fut+fut", ledger.FEES[1], q, deposit, 2, 0.0)]
 
 
 def _collect(src):
-    universe, fee, quotes, deposit, depth = src
+    universe, fee, quotes, deposit, depth = src[:5]
     ops = ledger.alphabet(with_rebalance=False, nquotes=len(quotes), marks=False)
-    states, r = ledger.collect_states(universe, fee, depth, quotes, deposit, ops)
+    states, r = ledger.collect_states(universe, fee, depth, quotes, deposit, ops, epsilon=(src[5] if len(src) > 5 else None))
     return src, states, r["transitions"]
 
 
 def _work(unit):
     src, chunk = unit
-    universe, fee, quotes, deposit, depth = src
+    universe, fee, quotes, deposit, depth = src[:5]
     cs = ledger.contracts_of(universe)
     reset_clock()
     out = {"evaluations": 0, "violations": [], "nontrivial": set(), "raised": 0}
@@ -291,7 +293,7 @@ def _work(unit):
                 if nontrivial:
                     out["nontrivial"].add(hash((universe, hist, faults, probe)))
                 if msgs:
-                    case = {"universe": universe, "fee": list(fee), "quotes": [list(q) for q in quotes], "deposit": deposit,
+                    case = {"universe": universe, "fee": list(fee), "quotes": [list(q) for q in quotes], "deposit": deposit, "epsilon": (src[5] if len(src) > 5 else None),
                             "history": [list(o) for o in hist], "faults": list(faults), "probe": probe}
                     out["violations"].append((case, "; ".join(msgs[:3]), (probe.split(":")[0], msgs[0].split(" ")[0], msgs[0].split(" ")[1])))
     return out
@@ -346,7 +348,7 @@ def replay(case, **kw):
     reset_clock()
     universe, fee = case["universe"], tuple(case["fee"])
     quotes = [tuple(q) for q in case["quotes"]]
-    b, ref, cs = ledger.initial(universe, fee, quotes, case["deposit"])
+    b, ref, cs = ledger.initial(universe, fee, quotes, case["deposit"], epsilon=case.get("epsilon"))
     for op in case["history"]:
         ref, _ = ledger.apply_op(b, ref, cs, tuple(op), quotes, fee)
     out = []
